@@ -32,6 +32,8 @@ type CB struct {
 	KeepOutput    bool   `json:"keep_output,omitempty"` // ResetOutput = false
 	NextTimeoutMS int    `json:"next_timeout_ms,omitempty"`
 	Reply         string `json:"reply,omitempty"` // line the callback types
+	// NoFunc: the callback has no function (the documented way to write a pure "done" marker)
+	NoFunc bool `json:"no_func,omitempty"`
 }
 
 // Case is one callback send.
@@ -156,13 +158,38 @@ func gen(t *rapid.T) Case {
 			cb.Reply = fmt.Sprintf("r%d", i)
 		}
 
+		// a trigger / not-contains text with a blank at its end or start is that text, blank included
+		if cb.Contains != "" && rapid.IntRange(0, 4).Draw(t, "blankTrigger") == 0 {
+			cb.Contains = rapid.SampledFrom([]string{cb.Contains + " ", " " + cb.Contains, cb.Contains + ": "}).Draw(t, "blankTriggerText")
+		}
+
+		if cb.NotContains != "" && rapid.IntRange(0, 4).Draw(t, "blankNot") == 0 {
+			cb.NotContains = rapid.SampledFrom([]string{cb.NotContains + " ", " " + cb.NotContains, cb.NotContains + "\n"}).Draw(t, "blankNotText")
+		}
+
+		if cb.Complete && cb.Reply == "" && rapid.Bool().Draw(t, "noFunc") {
+			cb.NoFunc = true
+		}
+
 		if c.Names != "distinct" && rapid.Bool().Draw(t, "onceBias") {
 			// several once-callbacks that do not end the operation, under one (or no) name: "once"
 			// belongs to the callback, not to its name
-			cb.Once, cb.Complete = true, false
+			cb.Once, cb.Complete, cb.NoFunc = true, false, false
 		}
 
 		c.Callbacks = append(c.Callbacks, cb)
+	}
+
+	// the not-contains text of some callback early in the dialogue: after a reset it is gone from
+	// "the output accumulated since the last reset" although it is still in the whole dialogue
+	if rapid.IntRange(0, 2).Draw(t, "notEarly") == 0 {
+		for _, cb := range c.Callbacks {
+			if cb.NotContains != "" {
+				c.Steps[0] = strings.TrimSpace(cb.NotContains) + " " + c.Steps[0]
+
+				break
+			}
+		}
 	}
 
 	return c
@@ -360,6 +387,19 @@ func model(c *Case, chunks []string) []outcome {
 	return results
 }
 
+// withFunc: the invocations that can be observed (a callback without a function runs nothing).
+func withFunc(c *Case, invs []inv) []inv {
+	var out []inv
+
+	for _, i := range invs {
+		if !c.Callbacks[i.idx].NoFunc {
+			out = append(out, i)
+		}
+	}
+
+	return out
+}
+
 func sameInvs(a, b []inv) bool {
 	if len(a) != len(b) {
 		return false
@@ -495,7 +535,7 @@ func run1(c Case, scale int) ev.Verdict {
 			oo = append(oo, opoptions.WithCallbackName(fmt.Sprintf("cb%d", i)))
 		}
 
-		cb, cerr := generic.NewCallback(func(drv *generic.Driver, out string) error {
+		fn := func(drv *generic.Driver, out string) error {
 			mu.Lock()
 			recorded = append(recorded, inv{idx, out})
 			lastInv = time.Now()
@@ -510,7 +550,13 @@ func run1(c Case, scale int) ev.Verdict {
 			}
 
 			return nil
-		}, oo...)
+		}
+
+		if spec.NoFunc {
+			fn = nil
+		}
+
+		cb, cerr := generic.NewCallback(fn, oo...)
 		if cerr != nil {
 			return ev.Fail("NewCallback: %v", cerr)
 		}
@@ -648,7 +694,7 @@ func run1(c Case, scale int) ev.Verdict {
 		// from "all" downwards that is consistent (the operation decides on what it has consumed)
 		for n := len(chunks); n >= 0 && !matched; n-- {
 			for _, o := range model(&c, chunks[:n]) {
-				if o.end != gotEnd || !sameInvs(o.invs, rec) {
+				if o.end != gotEnd || !sameInvs(withFunc(&c, o.invs), rec) {
 					why = fmt.Sprintf("model(%d chunks): end=%s invocations=%v", n, o.end, o.invs)
 
 					continue
@@ -686,11 +732,9 @@ func run1(c Case, scale int) ev.Verdict {
 		return ev.Fail("callbacks ran %v and the send ended with %s (result %q), which no replay of the delivered chunks %q explains; %s", rec, gotEnd, got.res, chunks, why)
 	}
 
-	if gotEnd == "timeout" && !c.ReaderExitFirst {
-		if el := end.Sub(last); el < force-2*time.Millisecond {
-			return ev.Fail("timeout error after %v, timeout in force %v", el, force)
-		}
-	}
+	// (when the timeout error comes is C05's business: whether a callback re-arms the timer is the
+	// implementation's policy)
+	_, _, _ = end, last, force
 
 	v := ev.Verdict{OK: true, Classes: []string{"end=" + gotEnd, fmt.Sprintf("invocations=%d", min(len(rec), 4))}}
 	overlap := 0
